@@ -407,8 +407,12 @@ def _used_names_in_file(filename: Path) -> Collection[str]:
         # `from module import name as alias` uses `name` of that module, whatever it is called here
         names.extend(alias.name for alias in node.names if alias.name != "*")
 
+    has_starred_import = any(
+        alias.name == "*" for node in core.walk(ast_root, ast.ImportFrom) for alias in node.names
+    )
     for node in core.walk(ast_root, (ast.Name, ast.Attribute)):
-        if isinstance(node, ast.Name) and node.id in imported_names:
+        if isinstance(node, ast.Name) and (node.id in imported_names or has_starred_import):
+            # With a starred import, any name may come from the imported module
             names.append(node.id)
 
         elif isinstance(node, ast.Attribute):
